@@ -21,6 +21,12 @@ open AM AM.HO
 takes the login): the `logins` channel of `RunNamedPipe` is unbuffered in the working tree (regenerated fact) -/
 theorem gen_logins_rendezvous : AM.Gen.loginsChanUnbuffered = true := rfl
 
+/-- the model has ONE output that both pipelines append to (`HO.St.out`): `RunNamedPipe` creates one event writer — one
+file handle, one encoder — and hands that same writer to the sshd processor and to the audit processor (regenerated
+fact). With a writer (and file handle) per pipeline the descriptor's write lock no longer orders the two pipelines'
+writes, and whole lines rest on the kernel alone (on a FIFO: only up to PIPE_BUF bytes). -/
+theorem gen_one_shared_writer : AM.Gen.oneSharedEventWriter = true := rfl
+
 open AM.Tr (Login Emitted AEvent Time Inv loginsOf loginsOf_append inv_init inv_step out_step)
 
 /-- every UserAction is preceded by the UserLogin of the login it carries -/
